@@ -1195,6 +1195,51 @@ func LiveNonDaemon() int {
 	return n
 }
 
+// LiveSites returns, for every spawn site, how many simulated goroutines
+// started there are alive (harness daemons not counted), as "site=n" items in
+// site order.
+//
+//go:norace
+func LiveSites() []string {
+	s := cur.Load()
+	if s == nil {
+		return nil
+	}
+	raceDisable()
+	var sites []string
+	var counts []int
+	for k := 0; k < s.nlive; k++ {
+		g := s.g(int(s.live[k]))
+		if g.state == stDone || g.state == stFree || g.Daemon {
+			continue
+		}
+		found := false
+		for i := range sites {
+			if sites[i] == g.SpawnSite {
+				counts[i]++
+				found = true
+			}
+		}
+		if !found {
+			sites = append(sites, g.SpawnSite)
+			counts = append(counts, 1)
+		}
+	}
+	// insertion sort by site
+	for i := 1; i < len(sites); i++ {
+		for j := i; j > 0 && sites[j] < sites[j-1]; j-- {
+			sites[j], sites[j-1] = sites[j-1], sites[j]
+			counts[j], counts[j-1] = counts[j-1], counts[j]
+		}
+	}
+	out := make([]string, len(sites))
+	for i := range sites {
+		out[i] = sites[i] + "=" + itoa(counts[i])
+	}
+	raceEnable()
+	return out
+}
+
 // LiveStacks returns the stacks of all goroutines (debug aid for leak reports).
 func LiveStacks() string {
 	buf := make([]byte, 1<<20)
